@@ -66,6 +66,12 @@ def run(chk):
         tf = work / ("g%d.utb" % i)
         tf.write_text(tablegen.table_text(entries))
         tables.append(("unicode.dis," + str(tf), alphabet))
+    for i in range(20 if quick else 300):
+        r = rng.fork(("emph", i))
+        text, al = tablegen.gen_emphasis_table(r)
+        tf = work / ("e%d.utb" % i)
+        tf.write_text(text)
+        tables.append(("unicode.dis," + str(tf), al))
     hstats = dict(neg=0, over=0, nonmono=0)
     for tl, alphabet in tables:
         r = rng.fork(("cases", tl))
